@@ -30,8 +30,6 @@ def evidence_notes():
 def finding_class(eco, spec, v, impl, ref, frag):
     """recorded finding classes (KNOWN_FINDINGS.json) — predicates on the input AND the wrong behaviour"""
     if eco in ("npm", "pnpm", "jsr", "crates"):
-        if "+" in v or "+" in spec:
-            return "F-C02-6"
         if frag == "F":
             if ref == "invalid" and impl != "invalid":
                 return "F-C02-3" if eco != "crates" else "F-C02-4"     # accepts what the package manager rejects
